@@ -1,4 +1,5 @@
 import ShellOp.Proofs.Informer
+import ShellOp.Proofs.MonitorEnable
 /-!
 # C01 — no cluster change is lost between Synchronization and later Events
 
@@ -160,3 +161,40 @@ theorem r3_foreign_reader_loses_event :
     Quiescent s ∧ ¬ NoLoss s := by decide
 
 end ShellOp.Informer.C01
+
+/-! # Monitor level: namespaces that appear after start (namespace.labelSelector bindings) -/
+namespace ShellOp.MonitorEnable.C01
+
+open ShellOp.MonitorEnable
+
+/-- **C01 (namespaces appearing after start).** For every interleaving of `EnableKubeEventCb` with
+any number of namespace-added callbacks (and whatever the range over the varying informers happens
+to visit besides the keys stored before it began): once the unlock has finished and no callback is
+in flight, every informer of the monitor is unlocked — static ones, those of namespaces stored
+before, during and after the unlock. With `Props/C01` (informer level) no event of such a namespace
+stays buffered for ever. -/
+theorem every_informer_enabled (st : List Bool) (v : List (Nat × Bool)) (sched : List MAct) :
+    Settled (run true { statics := st, varying := v } sched) →
+    AllEnabled (run true { statics := st, varying := v } sched) := by
+  have g := good_run _ sched (good_init st v)
+  generalize run true { statics := st, varying := v } sched = s at g
+  rintro ⟨hd, hi⟩
+  refine ⟨g.statics (by simp [hd]), fun p hp => ?_⟩
+  rcases g.finished hd p hp with h | h
+  · exact h
+  · rw [hi] at h; simp at h
+
+/-- Non-vacuity: a namespace stored while the range is running, missed by it, is still unlocked. -/
+example :
+    let s := run true { statics := [false], varying := [(1, false)] }
+      [.ea, .ea, .ea, .nsStore 2, .ea, .ea, .nsRead 2, .nsStore 3, .nsRead 3]
+    Settled s ∧ AllEnabled s ∧ s.varying.length = 3 := by decide
+
+/-- R4 (repaired, commit in known_findings.txt): with the flag written after the range, a namespace
+that appears between the range and the flag write stays locked for ever. -/
+theorem r4_unrepaired_flag_after_range_leaves_namespace_locked :
+    let s := run false { statics := [false], varying := [] }
+      [.ea, .ea, .ea, .nsStore 1, .nsRead 1, .ea]
+    Settled s ∧ ¬ AllEnabled s := by decide
+
+end ShellOp.MonitorEnable.C01
